@@ -52,15 +52,17 @@ const (
 	symRm
 	symX
 	symXt
+	symSc // the attempt succeeds while its context is being cancelled (added after a seeded change replaced such a success by the context's error)
+	symSt // the attempt succeeds after the deadline passed during it
 	nSyms
 )
 
-var symNames = [...]string{"R", "S", "N", "Rc", "Rt", "Rm", "X", "Xt"}
-var symClass = [...]string{"retriable-error", "success", "non-retriable-error", "context-cancelled-during-attempt", "deadline-passed-during-attempt", "context-cancelled-mid-wait", "context-error-returned", "deadline-error-returned"}
+var symNames = [...]string{"R", "S", "N", "Rc", "Rt", "Rm", "X", "Xt", "Sc", "St"}
+var symClass = [...]string{"retriable-error", "success", "non-retriable-error", "context-cancelled-during-attempt", "deadline-passed-during-attempt", "context-cancelled-mid-wait", "context-error-returned", "deadline-error-returned", "success-while-context-cancelled", "success-after-deadline-passed"}
 
 func (s sym) terminal() bool { return s != symR }
 func (s sym) endsContext() bool {
-	return s == symRc || s == symRt || s == symRm || s == symX || s == symXt
+	return s == symRc || s == symRt || s == symRm || s == symX || s == symXt || s == symSc || s == symSt
 }
 
 const raceReps = 64
@@ -171,6 +173,16 @@ func execA(t *testing.T, p polA, api, ctx0 string, prefix []sym) (r runA) {
 			var e error
 			switch s {
 			case symS:
+				r.Succeeded = true
+				r.LastErr = nil
+				return nil
+			case symSc:
+				cancel()
+				r.Succeeded = true
+				r.LastErr = nil
+				return nil
+			case symSt:
+				time.Sleep(time.Until(deadline) + time.Nanosecond)
 				r.Succeeded = true
 				r.LastErr = nil
 				return nil
